@@ -17,7 +17,8 @@ func init() {
 		"(2) HALFCLOSE: in the relay's direction worker CloseWrite(dst) follows the copy on every path, error => cancel+forceClose, success => only the bounded grace deadline, exactly two workers/two results; " +
 		"(3) PREFIX: every copy engine drains wrapper-buffered bytes (tryRelayGatherWrite) before any callee that unwraps to the raw socket, every unwrappable buffering wrapper exposes its buffered bytes, the gather-write kill switch has no non-test writer; " +
 		"(4) CURSOR: every TakeRelayPrefix advances its cursor on every path that returns bytes; (5) WIRING: handleConn wraps in DNS-detect -> bufio -> prefetch -> sniffer order and hands the outermost wrapper to the relay. " +
-		"Not decided: byte-stream equality under all segmentations, partial-write arithmetic of splice/writev, timing."})
+		"(6) SHORTWRITE: in every Read/Write copy loop the refill and the success returns lie behind the write-complete edge, the short-write edge only returns errors; (7) ADVANCE: loop-carried cursors of the writev/splice loops are advanced by the same iteration's I/O count, never by a running total. " +
+		"Not decided: byte-stream equality under all segmentations, arithmetic inside relayAdvanceSegments, timing."})
 }
 
 func runC05(c *Ctx) {
@@ -31,6 +32,8 @@ func runC05(c *Ctx) {
 	c05Prefix(c)
 	c05Cursor(c)
 	c05Wiring(c)
+	c05ShortWrite(c)
+	c05Advance(c)
 }
 
 // findLit returns the function literal inside f that evaluates a call to ref.
